@@ -304,6 +304,39 @@ FETCH_DECISIONS = {
 }
 
 
+def decision_atoms(ctx, b, o):
+    """What a deciding switch tests: its own description, or - for a small crate-local bool helper - everything the helper
+    branches on / returns."""
+    oc = o
+    for _ in range(10):
+        if oc is None:
+            break
+        if oc.kind in ('ref', 'cast'):
+            oc = oc.base
+        elif oc.kind == 'un' and getattr(oc, 'op', '') == 'Not':
+            oc = oc.a
+        else:
+            break
+    if oc is not None and oc.kind == 'call':
+        nm = norm(oc.callee)
+        if nm.split('::')[0] not in ('std', 'core', 'alloc', 'rpki'):
+            hbs = ctx.facts.find(nm)
+            if len(hbs) == 1 and len(hbs[0].blocks) <= 80 and hbs[0].nid != b.nid:
+                hb = hbs[0]
+                ctx.bodies.add(hb.nid)
+                atoms = []
+                for sbb in hb.switches():
+                    ho, _e = hb.switch_edges(sbb)
+                    if ho is not None:
+                        atoms.append(describe(ho))
+                rd = describe(hb.origin_of_place([0]))
+                if not re.match(r'^(phi\()?const\(', rd):
+                    atoms += [x for x in re.split(r'[|]', rd.strip('phi()')) if not x.startswith('const(')] if rd.startswith('phi(') else [rd]
+                if atoms:
+                    return atoms
+    return [describe(o) if o is not None else '?']
+
+
 def rule_fetch_decision_local(ctx):
     """Whether a repository is fetched depends on that repository alone (no state left behind by other repositories)."""
     for bn, (sink_pat, allowed) in FETCH_DECISIONS.items():
@@ -322,7 +355,11 @@ def rule_fetch_decision_local(ctx):
                     continue        # not a deciding switch
                 n += 1
                 d = describe(o) if o is not None else '?'
-                why = [w for rx, w in allowed if re.search(rx, d)]
+                atoms = [d] if any(re.search(rx, d) for rx, _w in allowed) else decision_atoms(ctx, b, o)
+                unknown = [a for a in atoms if not any(re.search(rx, a) for rx, _w in allowed)]
+                why = [] if unknown else [w for rx, w in allowed if any(re.search(rx, a) for a in atoms)]
+                if unknown:
+                    d = '; '.join(unknown)
                 ctx.check(bool(why), 'K1', 'fetch-decision:%s:%s' % (bn.split('::')[-1], re.sub(r'@bb\d+', '', d)[:70]),
                           'the update is skipped/attempted depending on: %s' % (why[0] if why else d[:60]),
                           '%s decides whether to fetch this repository on `%s`, which is not a property of this repository: a fault '
